@@ -19,7 +19,7 @@ import (
 
 func TestMain(m *testing.M) {
 	vcore.Init("C12", "exploration",
-		"rapid single-session histories (<= 20 messages, then deletion) of Create/Update/Remove PDR with arbitrary URR lists over 4 URRs and 4 PDRs, Create/Remove/Query URR; URRs shared by several PDRs; associations created at PDR creation and added or moved by Update PDR; Update PDRs the session cannot apply (PDR never created, removed earlier, or removed by the same message) next to IEs that cause reports. "+
+		"rapid single-session histories (<= 20 messages, then deletion) of Create/Update/Remove PDR with arbitrary URR lists over 4 URRs and 5 PDRs (ids 0-4), Create/Remove/Query URR; URRs shared by several PDRs; associations created at PDR creation and added or moved by Update PDR; Update PDRs the session cannot apply (PDR never created, removed earlier, or removed by the same message) next to IEs that cause reports. "+
 			"Oracle: reference model = current URR list per PDR, reference count = number of PDRs whose list names the URR; expected usage-report multiset in the response to the very request: Remove URR -> one TERMR report; Remove PDR / Update PDR dropping the last reference -> one TERMR report for that URR; "+
 			"Query URR -> one IMMER report (and not TERMR); Deletion -> one TERMR report per existing URR; nothing else, nothing twice - whatever cause the response carries. "+
 			"non-trivial = the history contains an association added by Update PDR that is later dissolved, or a URR shared by >= 2 PDRs whose last reference disappears; distinct by history",
@@ -233,7 +233,7 @@ func gen(t *rapid.T) Case {
 			c.Est = append(c.Est, stack.RuleOp{Verb: "create", Kind: "URR", ID: u, Method: 2, Trig: 2})
 		}
 	}
-	for p := uint32(1); p <= 4; p++ {
+	for p := uint32(0); p <= 4; p++ { // PDR ID 0 is a rule id like any other
 		if rapid.Bool().Draw(t, "pdr") {
 			l := pickURRs(false)
 			pdr[p] = setOf(l)
@@ -292,7 +292,7 @@ func gen(t *rapid.T) Case {
 					rules = append(rules, rm, q)
 				}
 			case "createpdr":
-				p := uint32(rapid.IntRange(1, 4).Draw(t, "pdr"))
+				p := uint32(rapid.IntRange(0, 4).Draw(t, "pdr"))
 				if _, ok := pdr[p]; ok || touchedP[p] {
 					continue
 				}
@@ -320,7 +320,7 @@ func gen(t *rapid.T) Case {
 				touchedP[p] = true
 				rules = append(rules, stack.RuleOp{Verb: "create", Kind: "PDR", ID: p, Prec: 1, URRs: l, Perm: perm(t)})
 			case "removepdr":
-				p := uint32(rapid.IntRange(1, 4).Draw(t, "pdr"))
+				p := uint32(rapid.IntRange(0, 4).Draw(t, "pdr"))
 				l, ok := pdr[p]
 				if !ok || touchedP[p] {
 					continue
@@ -345,7 +345,7 @@ func gen(t *rapid.T) Case {
 				// an Update PDR the session cannot apply - the PDR was never created, was removed earlier, or is removed by this
 				// very message (removals are applied first): whatever the answer's cause, the reports that the other IEs of
 				// the message have caused belong into it
-				p := uint32(rapid.IntRange(1, 5).Draw(t, "pdr"))
+				p := uint32(rapid.IntRange(0, 5).Draw(t, "pdr"))
 				if _, ok := pdr[p]; ok {
 					continue
 				}
@@ -360,7 +360,7 @@ func gen(t *rapid.T) Case {
 				}
 				rules = append(rules, stack.RuleOp{Verb: "update", Kind: "PDR", ID: p, Prec: 3, URRs: pickURRs(false)})
 			case "updatepdr":
-				p := uint32(rapid.IntRange(1, 4).Draw(t, "pdr"))
+				p := uint32(rapid.IntRange(0, 4).Draw(t, "pdr"))
 				l, ok := pdr[p]
 				if !ok || touchedP[p] {
 					continue
